@@ -118,18 +118,25 @@ def check_note(acc: Acc, n, e, it, case: dict) -> None:
         if m.todo_payload is None or m.todo_payload.priority != n.todo_payload.priority:
             diffs.append(("priority changes", f"{n.todo_payload.priority} -> {m.todo_payload.priority if m.todo_payload else None}"))
     for cls, msg in diffs:
-        acc.violation(f"round trip of {s!r}: {cls}: {msg}", case, cls=cls, finding=finding if cls == "body changes" and _explained_by_pn(n, m) else None)
+        acc.violation(f"round trip of {s!r}: {cls}: {msg}", case, cls=cls, finding=finding if _explained_by_pn(n, m, s) else None)
     forms = tuple(sorted({w.form for w in it.all_words()}))
     acc.sig((it.kind, it.priority is not None, it.mod is not None, len(it.zid) if it.zid else 0, it.ldate is not None, len(it.cont), forms))
     if not diffs:
         acc.sample({"to_string": s, "recompiled": {"kind": pc.note_kind(m), "zid": m.zid, "body": m.body[:80]}}, cap=3)
 
 
-def _explained_by_pn(n, m) -> bool:
-    """The known mechanism explains the WHOLE discrepancy iff the recompiled body is
-    the original body minus its leading Pn word and nothing else differs."""
+def _explained_by_pn(n, m, s: str) -> bool:
+    """The known mechanism (the priority of a done / cancelled todo is not emitted, so the Pn word that
+    starts its body takes the priority's place) explains the WHOLE discrepancy iff the emitted text is
+    exactly '<kind> <body>' with that leading Pn word, and the recompiled body is the original body minus
+    that word and minus whatever prefix look-alikes (YYMMDD, ZID) now directly follow the new 'priority'."""
     parts = n.body.split(" ", 1)
-    return len(parts) == 2 and pg._looks_priority(parts[0]) and m.body == parts[1].strip()
+    if not (len(parts) == 2 and pg._looks_priority(parts[0])):
+        return False
+    if s != f"{pc.note_kind(n)} {n.body}\n":
+        return False
+    rest = parts[1].strip()
+    return m.body == rest or (m.zid is not None and rest.startswith(m.body.split(" ", 1)[0]) and rest.endswith(m.body))
 
 
 def run_unit(unit: dict) -> dict:
